@@ -97,6 +97,20 @@ let run path =
       c.alive <- false; incr diffs;
       Printf.printf "%s\n" what end in
   let rec feed c (line : string) (e : event) =
+    (* once the monitor has left a trace, the lifecycle scanner still judges what follows (it needs no model state) *)
+    if (not c.alive) && c.mon then begin
+      match c.life with
+      | Some l -> (match ServiceSpec.life_step l e with
+          | Some l' -> c.life <- Some l'
+          | None -> c.life <- None; incr diffs;
+            Printf.printf "propfail %s lifecycle name=%s event#%d [%s] %s\n" c.k c.name c.nev line
+              (match e with
+               | EStartRet b -> "Start returned " ^ string_of_bool b ^ " contradicting the running state"
+               | EStopRet b -> "Stop returned " ^ string_of_bool b ^ " contradicting the running state"
+               | EStartCall | EStopCall _ -> "a Start/Stop call overlaps another one"
+               | _ -> "supervisor activity (" ^ ev_name e ^ ") while no supervisor may exist: after Stop returned / before Start"))
+      | None -> ()
+    end;
     if c.alive && c.mon then begin
       Hashtbl.replace classes (sup_name c.st.sp ^ "/" ^ api_name c.st.ap ^ "/" ^ ev_name e) ();
       (* the trace scanners judge the observed event sequence by itself, whatever the monitor's state *)
@@ -146,7 +160,7 @@ let run path =
         c.late_cancel <- (n, line) :: c.late_cancel
       (* a caller blocked on the full queue returns as soon as the dispatcher has taken a command; the dispatcher's
          request is recorded a moment later: the return is kept until that record *)
-      | None, ECmdRet when (match c.st.ap with ACmd (_, _, true) -> c.late_ret = None | _ -> false) ->
+      | None, ECmdRet when c.st.sp = SDispatch && (match c.st.ap with ACmd (_, _, true) -> c.late_ret = None | _ -> false) ->
         c.late_ret <- Some line
       | None, _ ->
         (* classification of a disabled event: does it contradict a clause by itself? *)
@@ -170,6 +184,9 @@ let run path =
                                ", but the supervisor went on (" ^ ev_name e ^ ") without a resubscribe request")
           (* the bounded queue: a caller returns un-cancelled only once its command is in the queue, and gives up
              (QueueTimeout) only while the queue is full *)
+          (* Stop returned although the supervisor has not ended *)
+          | EStopRet true when (match c.st.ap with AStop (_, true) -> true | _ -> false) ->
+            Some ("stop", "Stop returned while the supervisor had not ended (the model has it at " ^ sup_name c.st.sp ^ ")")
           | ECmdRet when (match c.st.ap with ACmd (_, _, true) -> true | _ -> false) ->
             Some ("queue", Printf.sprintf "the call returned with its future pending although the queue (capacity %s) was full and the dispatcher took nothing" (string_of_n c.st.cap))
           | EQueueTimeout when (match c.st.ap with ACmd (_, _, false) -> true | _ -> false) ->
